@@ -67,4 +67,18 @@ theorem map_of_mapM_doc : ∀ (s : Bytes) (t : Text),
     subst h
     simp [docChar_spec c u hu, map_of_mapM_doc cs ts hts]
 
+theorem decodeText_of_spec (s : Bytes) (t : Text) (h : Spec.Labels.text s = some t) : decodeText s = t := by
+  unfold Spec.Labels.text at h
+  unfold decodeText
+  split at h
+  · rename_i hb
+    simp only [hb, if_true]
+    simp only [Option.bind_eq_some_iff] at h
+    obtain ⟨us, hus, hut⟩ := h
+    rw [units_of_exact _ us hus]
+    exact decodeUnits_of_utf16 us t hut
+  · rename_i hb
+    simp only [hb]
+    exact map_of_mapM_doc s t h
+
 end PdfVerif.Lemmas.Labels
